@@ -171,23 +171,24 @@ type point struct {
 }
 
 type World struct {
-	t0     time.Time
-	t      *testing.T
-	scn    *Scenario
-	sch    *sched
-	client *mqtt.Client
-	store  *simStore
-	bk     *broker
-	conns  []*simConn
-	actors []*actor
-	xchs   []*xch
-	log    []Event
-	logH   uint64
-	step   int
-	viol   []Violation
-	curT   *thread
-	gen    int
-	warns  []error
+	wasOnline bool
+	t0        time.Time
+	t         *testing.T
+	scn       *Scenario
+	sch       *sched
+	client    *mqtt.Client
+	store     *simStore
+	bk        *broker
+	conns     []*simConn
+	actors    []*actor
+	xchs      []*xch
+	log       []Event
+	logH      uint64
+	step      int
+	viol      []Violation
+	curT      *thread
+	gen       int
+	warns     []error
 
 	choices []int
 	labels  []string
